@@ -639,6 +639,68 @@ fn case_rec<T: Elem>(case: u64, args: &Args, ev: &mut Ev) {
     let _ = Array1::<T>::zeros(0);
 }
 
+/// xs and ys of a 2-D batch as two views of one buffer: a square array and its own transpose,
+/// a square mesh made from one vector (broadcast view and its transpose), a window and a
+/// strided view that start at the same element. Each element must be what interp(xs[i], ys[i])
+/// gives - whatever memory the two arrays share.
+fn aliased_query_pairs(ev: &mut Ev) {
+    use vh::ndarray::{s, Array1, Array2, Array3, Axis};
+    use vh::ndarray_interp::interp2d::Interp2D;
+    let mut rng = Rng::derive(9, "C09-aliased-query-pairs", &[0]);
+    for round in 0..(if cfg!(miri) { 4u64 } else { 60 }) {
+        let (nx, ny) = (3 + rng.below(4), 3 + rng.below(4));
+        // both axes cover [0, 4]
+        let mk_axis = |rng: &mut Rng, n: usize| -> Array1<f64> {
+            let mut v: Vec<f64> = vec![0.0, 4.0];
+            while v.len() < n {
+                let c = (1 + rng.below(31)) as f64 / 8.0;
+                if !v.contains(&c) {
+                    v.push(c);
+                }
+            }
+            v.sort_by(|a, b| a.partial_cmp(b).unwrap());
+            Array1::from(v)
+        };
+        let (ax, ay) = (mk_axis(&mut rng, nx), mk_axis(&mut rng, ny));
+        let grid: Array3<f64> = Array3::from_shape_fn((nx, ny, 2), |_| rng.f01() * 16.0 - 8.0);
+        let b = Interp2D::builder(grid).x(ax).y(ay).build().unwrap();
+        let m = 2 + rng.below(3);
+        let a: Array2<f64> = Array2::from_shape_fn((m, m), |_| rng.f01() * 4.0);
+        let q: Array1<f64> = (0..m).map(|_| rng.f01() * 4.0).collect();
+        let col = q.view().insert_axis(Axis(1));
+        let mesh = col.broadcast((m, m)).unwrap();
+        let long: Array1<f64> = (0..2 * m).map(|_| rng.f01() * 4.0).collect();
+        let mut check = |name: &str, got: Vec<f64>, xs: Vec<f64>, ys: Vec<f64>, ev: &mut Ev| {
+            ev.add("aliased_query_pair_calls", 1);
+            let want: Vec<u64> = xs.iter().zip(&ys).flat_map(|(&x, &y)| b.interp(x, y).unwrap().iter().map(|v| v.to_bits()).collect::<Vec<_>>()).collect();
+            if got.iter().map(|v| v.to_bits()).collect::<Vec<_>>() != want {
+                ev.violation(
+                    "C09:array-vs-single",
+                    &format!("2-D interp_array with {name}: xs {:?}, ys {:?}: result {:?} differs from the per-element calls", xs, ys, got),
+                    9_300_000 + round,
+                    J::obj().set("variant", name),
+                );
+            }
+        };
+        let flat = |v: vh::ndarray::ArrayView2<f64>| -> Vec<f64> { v.iter().copied().collect() };
+        check("a square array and its transpose (Ix2)", b.interp_array(&a, &a.t()).unwrap().iter().copied().collect(), flat(a.view()), flat(a.t()), ev);
+        check("the transpose and the array (Ix2)", b.interp_array(&a.t(), &a).unwrap().iter().copied().collect(), flat(a.t()), flat(a.view()), ev);
+        check(
+            "a square array and its transpose (IxDyn)",
+            b.interp_array(&a.view().into_dyn(), &a.t().into_dyn()).unwrap().iter().copied().collect(),
+            flat(a.view()),
+            flat(a.t()),
+            ev,
+        );
+        check("a square mesh from one vector: broadcast view and its transpose", b.interp_array(&mesh, &mesh.t()).unwrap().iter().copied().collect(), flat(mesh.view()), flat(mesh.t()), ev);
+        check("the same array twice", b.interp_array(&a, &a).unwrap().iter().copied().collect(), flat(a.view()), flat(a.view()), ev);
+        let (w1, w2) = (long.slice(s![..m]), long.slice(s![..2 * m - 1;2]));
+        check("a window and a strided view from the same element (Ix1)", b.interp_array(&w1, &w2).unwrap().iter().copied().collect(), w1.to_vec(), w2.to_vec(), ev);
+        let (d1, d2) = (w1.into_dyn(), w2.into_dyn());
+        check("a window and a strided view from the same element (IxDyn)", b.interp_array(&d1, &d2).unwrap().iter().copied().collect(), d1.iter().copied().collect(), d2.iter().copied().collect(), ev);
+    }
+}
+
 fn main() {
     let args = Args::parse("C09");
     let n = args.budget(600, 60000);
@@ -653,6 +715,10 @@ fn main() {
             (_, true) => case_rec::<f32>(case, &args, ev),
         }
     });
+    let mut ev = ev;
+    if args.blocks() {
+        aliased_query_pairs(&mut ev);
+    }
     ev.finish(
         &args,
         "Interp1D (Linear, CubicSpline) and Interp2D (Bilinear) over data Ix1..Ix6 / IxDyn incl. \
